@@ -264,6 +264,19 @@ impl<B: AsRef<[usize]> + BitLength, C: AsRef<[BlockCounters]>> RankUnchecked for
 impl<B: AsRef<[usize]> + BitLength, C: AsRef<[BlockCounters]>> Rank for Rank9<B, C> {}
 impl<B: AsRef<[usize]> + BitLength, C: AsRef<[BlockCounters]>> RankZero for Rank9<B, C> {}
 
+// Accessors for verification harnesses (compiled only with --cfg sux_verif)
+#[cfg(sux_verif)]
+impl<B, C: AsRef<[BlockCounters]>> Rank9<B, C> {
+    /// Returns the (absolute, relative) pairs of the block counters.
+    pub fn verif_counts(&self) -> Vec<(usize, usize)> {
+        self.counts
+            .as_ref()
+            .iter()
+            .map(|c| (c.absolute, c.relative))
+            .collect()
+    }
+}
+
 #[cfg(test)]
 mod test {
     use super::*;
